@@ -37,6 +37,7 @@ def body(led):
                    replay=replays.cone_rigid if model == 'kpanel' else replays.panel_matrix('k0', model, y))
     py_panel.check_calc_k0(led, replay=replays.panel_matrix('k0', 'plate', False))
     py_panel.check_one_laminate(led)
+    py_panel.check_calc_k0_numeric(led)
     ok, _ = K.compare(real('F00') * 2, real('F00'))
     led.canary('2*F00 vs F00', not ok)
     _standin(led)
